@@ -225,6 +225,24 @@ func engineRT(c config, o *out) {
 		}
 	}
 	rec(nil)
+	// adversarial lengths at every group depth: the index arithmetic (iNdEx + length, checked for wrap-around after every
+	// record) must behave the same inside groups as at the top level
+	for depth := 0; depth <= 3; depth++ {
+		var pre []byte
+		for d := 0; d < depth; d++ {
+			pre = protowire.AppendTag(pre, protowire.Number(1+d), protowire.StartGroupType)
+		}
+		for _, inner := range [][]byte{nil, {0x08, 0x01}, {0x15, 1, 2, 3, 4}} {
+			for _, l := range []uint64{1<<63 - 1, 1<<63 - 2, 1<<63 - 12, 1<<63 - 64, 1 << 62, 1<<62 + 1<<61, 1 << 63, 1<<63 + 5, math.MaxUint64, math.MaxUint64 - 3, math.MaxUint64 - 20, 1 << 31, 1 << 32} {
+				m := append(append([]byte(nil), pre...), inner...)
+				m = protowire.AppendTag(m, 2, protowire.BytesType)
+				m = protowire.AppendVarint(m, l)
+				for _, tail := range [][]byte{nil, {0x00}, {0x0c}, {0x08, 0x01, 0x0c, 0x14, 0x1c}} {
+					rtSkip(o, append(append([]byte(nil), m...), tail...), "advlen-in-group")
+				}
+			}
+		}
+	}
 	// well-formed records followed by arbitrary rest, then mutations of them
 	nrec := 3000
 	if c.thorough() {
